@@ -19,15 +19,20 @@ PID = 'C02'
 
 def plan(tier):
     T = 3
-    asize = 3 if tier == 'thorough' else 2
+    deep = tier == 'thorough'
     tasks = []
     for cfg in sc.product_configs('pfi', tier):
+        base = cfg['alpha'] == F(1, 4) and cfg['n_inner'] < 3 and cfg['storage'] in ('Batch', 'Uniform', 'Geometric') \
+            and cfg['names'] != 'float'
+        if cfg['storage'] == 'libdefault' and cfg['imputer'] != 'default':
+            continue        # the reference needs the imputer spy, which needs an explicit storage object
         if sc.is_core(cfg):
-            tasks.append((cfg, T + 1 if tier == 'thorough' else T, None, False, 3))
+            tasks.append((cfg, T + 1 if deep else T, None, False, 3))
         else:
-            tasks.append((cfg, T, 2 if tier == 'thorough' and cfg['alpha'] == F(1, 4) and cfg['n_inner'] < 3
-                          and cfg['storage'] in ('Batch', 'Uniform', 'Geometric') and cfg['names'] != 'float'
-                          else 1, True, asize))
+            bound = 2 if (deep and base and cfg['d'] == 3 and cfg['n_inner'] == 2 and cfg['imputer'] == 'joint'
+                          and cfg['names'] == 'str') else 1
+            tasks.append((cfg, T, bound, True, 3 if (deep and base and bound == 1) else 2))
+    tasks.sort(key=lambda t: -(t[2] or 0))
     return tasks
 
 
